@@ -56,12 +56,13 @@ class NNXMeta(struct.PyTreeNode, meta.AxisMetadata[A]):
     return self.replace(value=val)  # type: ignore
 
   def add_axis(self, index: int, params: dict[Any, Any]) -> 'NNXMeta[A]':
-    # TODO: implement this, supporting hooks
-    return self
+    # update the sharding names (and run the axis hooks) as NNX transforms do
+    state = spmd.add_axis(self.to_nnx_variable().to_state(), index, params)
+    return self.replace(metadata=state.get_metadata())
 
   def remove_axis(self, index: int, params: dict[Any, Any]) -> 'NNXMeta[A]':
-    # TODO: implement this, supporting hooks
-    return self
+    state = spmd.remove_axis(self.to_nnx_variable().to_state(), index, params)
+    return self.replace(metadata=state.get_metadata())
 
   def get_partition_spec(self) -> jax.sharding.PartitionSpec:
     """Returns the ``Partitionspec`` for this partitioned value."""
